@@ -1298,8 +1298,8 @@ pub fn c09(big: bool) -> BoxedStrategy<Case> {
         14 => (h(), topic.clone()).prop_map(|(h, topic)| ClientOp::SubscribeFor { h, topic }),
         8 => (h(), topic.clone()).prop_map(|(h, topic)| ClientOp::UnsubscribeFor { h, topic }),
         8 => topic.clone().prop_map(|topic| ClientOp::BrokerPing { topic }),
-        2 => h().prop_map(|h| ClientOp::Stop { h }),
-        2 => h().prop_map(|h| ClientOp::Drop { h }),
+        3 => h().prop_map(|h| ClientOp::Stop { h }),
+        3 => h().prop_map(|h| ClientOp::Drop { h }),
         4 => h().prop_map(|h| ClientOp::Restart { h }),
         8 => (h(), topic, any::<bool>()).prop_map(|(h, topic, call)| {
             let work = vec![Step::Publish { topic, id: 0 }];
@@ -1310,9 +1310,12 @@ pub fn c09(big: bool) -> BoxedStrategy<Case> {
         5 => Just(ClientOp::Yield),
         4 => (0u32..3).prop_map(ClientOp::Sleep),
     ];
-    (vec((sub_spawn, sub_started), 1..=4), 1usize..=3)
-        .prop_flat_map(move |(subs, n)| (Just(subs), vec(vec(op.clone(), 3..=max_ops), n..=n), schedule(if big { 128 } else { 64 })))
-        .prop_map(|(subs, mut clients, schedule)| {
+    // which client holds an address of which subscriber: mostly everybody, but also subscribers that nobody
+    // holds (they subscribe in `started` and are gone at once: a stale entry next to terminated-but-held ones)
+    let held = vec(prop::bool::weighted(0.85), 12..=12);
+    (vec((sub_spawn, sub_started), 1..=4), 1usize..=3, held)
+        .prop_flat_map(move |(subs, n, held)| (Just(subs), vec(vec(op.clone(), 3..=max_ops), n..=n), schedule(if big { 128 } else { 64 }), Just(held)))
+        .prop_map(|(subs, mut clients, schedule, held)| {
             let mut actors: Vec<ActorSpec> = subs.into_iter().map(|(spawn, started)| ActorSpec { kind: 0, spawn, parent: None, beh: Behavior { started, ..Default::default() }, peer: None }).collect();
             // values recreated from Default behave like the value they replace (one behaviour per kind)
             let mut default_beh = vec![];
@@ -1325,7 +1328,9 @@ pub fn c09(big: bool) -> BoxedStrategy<Case> {
             let mut grants = vec![];
             for c in 0..clients.len() {
                 for a in 0..actors.len() {
-                    grants.push(Grant { client: c, actor: a, kind: HKind::Addr });
+                    if held[c * 4 + a] {
+                        grants.push(Grant { client: c, actor: a, kind: HKind::Addr });
+                    }
                 }
             }
             // unique publication ids
